@@ -17,7 +17,12 @@ RULE = ("cases = generated quantized stacks (optional leading QActivation; "
         "QActivation after every compute layer but the last) with on-lattice "
         "stored weights in mode random/max/min/signed_max and a batch of inputs "
         "on the source lattice in mode random/max/min/aligned (aligned = worst "
-        "case constructed per output channel of the first compute layer), plus "
+        "case constructed per output channel of the first compute layer); "
+        "kernel families fixed-point / auto_po2 / po2 / binary / ternary / "
+        "stochastic_binary / stochastic_ternary / unsigned; optionally the "
+        "weights of the SAME model object are changed 1-2 more times (reseed, "
+        "auto_po2 kernels times 2^shift) and the model is run and its data type "
+        "map regenerated and judged after every change; plus "
         "single-layer models for analyze_accumulator.  Non-trivial = some "
         "pre-activation reaches at least 1/8 of the reported accumulator range "
         "(model cases) / the layer has more than one output channel (estimator "
@@ -45,6 +50,12 @@ ASSUMPTIONS = [
     "with larger pre-activations is not judged downstream of that activation",
     "auto_po2 kernels: the fused_accumulator is tested and the weight type is "
     "applied to quantized_kernel / scale",
+    "stochastic_binary / stochastic_ternary kernels are used outside the "
+    "training phase only, where they are deterministic (sign / threshold rule); "
+    "determinism of every kernel quantizer is asserted as a harness check",
+    "a map generated after the weights of the model changed (remap phases) is "
+    "held to the same statement as the first one: it describes the model as it "
+    "is when QTools is called (failures carry remap=true in the signature)",
     "analyze_accumulator: stored weights are on a dyadic lattice and the range "
     "bounds are multiples of 1/8, so all sums are exact and the comparison "
     "|out| <= 2^size is exact (no tolerance)",
@@ -53,7 +64,9 @@ BUDGET_S = {"quick": 50, "thorough": 780}
 REQUIRED_LABELS = {
     "quick": ["edge", "model", "aa", "tight", "very_tight", "exact_f32", "bias", "nobias",
               "k:dense", "k:conv1d", "k:conv2d", "k:dw2d", "kq:qb", "kq:po2",
-              "kq:bin", "kq:ter", "kq:qb_auto_po2", "kq_max_value_not_po2",
+              "kq:bin", "kq:ter", "kq:sbin", "kq:ster", "kq:qb_auto_po2",
+              "remap", "remap_auto_po2", "remap_auto_po2_inference",
+              "remap_auto_scale_changed", "kq_max_value_not_po2",
               "dw_depth_multiplier>1", "act:relu_1bit_int0", "act:relu_1bit_int1",
               "act:relu_1bit_int2", "kernel_unsigned",
               "bin_ter_into_unsigned_kernel", "inference_auto_po2", "x:aligned",
@@ -232,13 +245,47 @@ def _layer_sig(l, in_family, which):
 
 
 def oracle_model(ctx, case, stats):
+  """One model object; phase 0 = the stored weights of the case, every entry
+  [reseed, shift] of case["remap"] is one more phase: the weights of the SAME
+  model change (as after more training / weight decay / set_weights; auto_po2
+  raw kernels are additionally multiplied by 2^shift so that the kernel scale
+  moves), the model runs again and the data type map is generated again.  Every
+  phase is judged in full against the map generated in that phase."""
+  _housekeeping()
+  model, shapes = G.build_stack(case)
+  fails = []
+  phases = [[0, 0]] + [list(p) for p in case.get("remap", [])]
+  prev_scales = None
+  seen = set()
+  for pi, (reseed, shift) in enumerate(phases):
+    bad, go_on, scales = _check_phase(case, model, shapes, reseed, shift, pi, stats)
+    for sc, sig, detail in bad:
+      key = core.jhash([sc, sig])
+      if pi > 0:
+        if key in seen:
+          continue       # already failing before the weights changed
+        sig = dict(sig, remap=True)
+        detail = "map #%d of the same model (weights changed): %s" % (pi + 1, detail)
+      seen.add(key)
+      fails.append((sc, sig, detail))
+    if pi > 0:
+      stats["labels"].add("remap_checked")
+      if scales and prev_scales and any(
+          not np.array_equal(a, b) for a, b in zip(scales, prev_scales)):
+        stats["labels"].add("remap_auto_scale_changed")
+    prev_scales = scales
+    if not go_on:
+      break
+  return fails
+
+
+def _check_phase(case, model, shapes, reseed, shift, pi, stats):
+  """Returns (failures, continue_with_next_phase, auto_po2 kernel scales)."""
   import tensorflow as tf  # pylint: disable=g-import-not-at-top
   from qkeras.qtools import run_qtools as run_qtools_mod  # pylint: disable=g-import-not-at-top
   fails = []
-  _housekeeping()
   layers = case["layers"]
-  model, shapes = G.build_stack(case)
-  G.set_stack_weights(model, case, shapes)
+  G.set_stack_weights(model, case, shapes, reseed=reseed, shift=shift)
   compute_idx = [i for i, l in enumerate(layers) if l["k"] in G.COMPUTE]
   first = compute_idx[0]
 
@@ -267,13 +314,14 @@ def oracle_model(ctx, case, stats):
     # eagerly on OTHER weights before (their auto_po2 scales are stale), then
     # the weights change and QTools(is_inference=True,
     # model_weights_already_quantized=False) has to re-quantize them itself
-    for i in compute_idx:
-      lay = model.get_layer("L%d" % i)
-      _eval_q(lay.get_quantizers()[0], lay.get_weights()[0])
-    G.set_stack_weights(model, case, shapes, reseed=7919)
+    if pi == 0:
+      for i in compute_idx:
+        lay = model.get_layer("L%d" % i)
+        _eval_q(lay.get_quantizers()[0], lay.get_weights()[0])
+      G.set_stack_weights(model, case, shapes, reseed=7919)
     rep, bad = run_qtools()
     if bad:
-      return bad
+      return bad, False, None
 
   # quantized weights really used by the layers
   used = {}
@@ -300,17 +348,20 @@ def oracle_model(ctx, case, stats):
     wq = _eval_q(used[i][2], lay.get_weights()[0]).astype(np.float64)
     if not np.array_equal(wq, used[i][0]):
       raise core.HarnessError("kernel quantizer is not deterministic")
+  scales = [np.asarray(used[i][2].scale, dtype=np.float64) for i in compute_idx
+            if G.is_auto(layers[i]["kq"])]
 
   if rep is None:
     rep, bad = run_qtools()
     if bad:
-      return bad
+      return bad, False, None
 
   # source type holds the inputs
   for clause, _, text in T.violations(rep["source_quantizers"][0], x):
     fails.append(("source_type", {"clause": clause, "src": G.q_family(case["src"])},
                   "model input: " + text))
 
+  go_on = True
   prev_family = "src:" + G.q_family(case["src"])
   for i, l in enumerate(layers):
     name = "L%d" % i
@@ -338,6 +389,7 @@ def oracle_model(ctx, case, stats):
       prev_family = fam
       if beyond:
         stats["labels"].add("act_input_beyond_ste_regime")
+        go_on = False
         break
       continue
     if l["k"] == "flatten":
@@ -412,7 +464,7 @@ def oracle_model(ctx, case, stats):
                                       "clause": clause},
                         "%s bias %r reported %s: %s" % (name, l["bq"], T.describe(brep), text)))
     prev_family = "acc"
-  return fails
+  return fails, go_on, scales
 
 
 def labels_model(case):
@@ -421,6 +473,13 @@ def labels_model(case):
     labs.append("lead_act")
   if case.get("inference"):
     labs.append("inference")
+  if case.get("remap"):
+    labs.append("remap")
+    labs.append("remap:%d" % len(case["remap"]))
+    if any(G.is_auto(l["kq"]) for l in case["layers"] if l["k"] in G.COMPUTE):
+      labs.append("remap_auto_po2")
+      if case.get("inference"):
+        labs.append("remap_auto_po2_inference")
   prev = None
   for l in case["layers"]:
     if l["k"] == "act":
@@ -432,7 +491,7 @@ def labels_model(case):
         labs.append("dw_depth_multiplier>1")
       if G.q_family(l["kq"]) in ("qb_unsigned", "relu", "rpo2"):
         labs.append("kernel_unsigned")
-        if prev is not None and prev["t"] in ("bin", "ter"):
+        if prev is not None and prev["t"] in G.BIN_TER:
           labs.append("bin_ter_into_unsigned_kernel")
       if case.get("inference") and G.is_auto(l["kq"]):
         labs.append("inference_auto_po2")
@@ -581,7 +640,7 @@ def case_strategy(quick):
       # qtools documents depth_multiplier == 1 for auto_po2 depthwise kernels
       # (assert in adjust_accumulator_for_auto_po2)
       l["kq"] = dict(l["kq"], alpha=1.0)
-    if prev_act is not None and prev_act["t"] in ("bin", "ter") and \
+    if prev_act is not None and prev_act["t"] in G.BIN_TER and \
         l["kq"]["t"] == "qb" and not G.is_auto(l["kq"]):
       # -1 x most-negative code is outside the domain (as min x min is);
       # applied AFTER the auto_po2 -> alpha=1 replacement above
@@ -616,7 +675,7 @@ def case_strategy(quick):
     if draw(st.integers(0, 3)) == 0:
       lead = draw(G.st_act_q(st))
       extra = draw(st.integers(0, 1))
-      if lead["t"] in ("bin", "ter"):
+      if lead["t"] in G.BIN_TER:
         src = {"t": "qb", "bits": 2 + extra, "int": 1, "sym": 1, "kn": 1,
                "alpha": None}
       elif lead["t"] == "relu":
@@ -656,6 +715,12 @@ def case_strategy(quick):
     case["batch"] = 2
     if draw(st.integers(0, 3)) == 0:
       case["inference"] = True
+    # the data type map of ONE model object is generated again after its
+    # weights changed (drawn last: earlier draws keep their meaning)
+    n_remap = draw(st.sampled_from([0, 0, 0, 1, 1, 2]))
+    if n_remap:
+      case["remap"] = [[draw(st.sampled_from([0, 1, 2, 3])),
+                        draw(st.integers(-4, 4))] for _ in range(n_remap)]
     return case
 
   @st.composite
@@ -677,7 +742,7 @@ def case_strategy(quick):
         l["filters"] = draw(st.integers(1, 5))
     l["bias"] = draw(st.booleans())
     l["kq"] = draw(st.one_of(G.st_qb(st, bits=(2, 5)), st.just({"t": "ter"}),
-                             st.just({"t": "bin"}),
+                             st.just({"t": "bin"}), G.st_stochastic_q(st),
                              st.just({"t": "po2", "bits": 4, "mv": None})))
     l["bq"] = draw(G.st_qb(st, bits=(2, 5), ints=(0, 2)))
     l["wmode"] = draw(st.sampled_from(["random", "random", "signed_max"]))
@@ -723,10 +788,14 @@ def edge_cases(tier):
              {"t": "po2", "bits": 4, "mv": 4.0}, {"t": "po2", "bits": 4, "mv": 1.0},
              {"t": "po2", "bits": 4, "mv": 6.0},
              {"t": "bin"}, {"t": "ter"},
+             # the stochastic classes (deterministic outside training); only
+             # after source / relu / quantized_bits / binary inputs
+             {"t": "sbin"}, {"t": "ster", "temp": 1.0, "real_sigmoid": 0},
              # unsigned kernels (only after source / relu / binary / ternary inputs)
              {"t": "qb", "bits": 3, "int": 1, "sym": 0, "kn": 0, "alpha": 1.0},
              {"t": "relu", "bits": 3, "int": 1}, {"t": "rpo2", "bits": 2, "mv": None}]
   n_signed = len(kernels) - 3
+  n_plain = n_signed - 2
   biases = [None, qb(4, 1, 0, 1.0), {"t": "po2", "bits": 3, "mv": None}]
   modes = [("max", "max"), ("min", "max"), ("min", "min"), ("max", "min"),
            ("signed_max", "aligned"), ("lsb", "lsb"), ("random", "random")]
@@ -748,6 +817,8 @@ def edge_cases(tier):
     for ik, kq in enumerate(kernels):
       if ik >= n_signed and ii not in (0, 1, 3, 4):
         continue
+      if n_plain <= ik < n_signed and ii not in (0, 1, 2, 3):
+        continue
       for ib, bq in enumerate(biases):
         for im, (wm, xm) in enumerate(modes):
           idx += 1
@@ -758,7 +829,7 @@ def edge_cases(tier):
             k2 = dict(kq)
             if geo.get("dm", 1) > 1 and G.is_auto(k2):
               k2["alpha"] = 1.0
-            if lead is not None and lead["t"] in ("bin", "ter") and \
+            if lead is not None and lead["t"] in G.BIN_TER and \
                 k2["t"] == "qb" and not G.is_auto(k2):
               k2["sym"] = 1
             l = dict({"k": kind, "bias": bq is not None, "kq": k2,
@@ -769,7 +840,7 @@ def edge_cases(tier):
               layers = []
             else:
               case["lead_act"] = lead
-              if lead["t"] in ("bin", "ter"):
+              if lead["t"] in G.BIN_TER:
                 case["src"] = qb(2, 1)
               elif lead["t"] == "relu":
                 case["src"] = qb(lead["bits"] + (2 if lead["bits"] == 1 else 1),
@@ -781,6 +852,11 @@ def edge_cases(tier):
             case.update(xmode=xm, xseed=idx, batch=2)
             if G.is_auto(k2) and idx % 2 == 0:
               case["inference"] = True      # float-weights route, stale scales
+            if idx % 5 == 0 or (G.is_auto(k2) and idx % 4 < 2):
+              # second (third) map of the same model after its weights changed;
+              # reseed 0 + shift: same pattern, kernel scale moved by 2^shift
+              case["remap"] = [[0, -3 if idx % 2 else 2]] + (
+                  [[1, 1]] if idx % 3 == 0 else [])
             out.append(case)
   # accumulators beyond 24 bits: float32 is inexact, only the range is tested
   out.append({"type": "model", "in_shape": [33], "src": qb(12, 1),
@@ -812,7 +888,8 @@ def edge_cases(tier):
   return out
 
 
-DYNAMIC_LABELS = ("edge", "tight", "very_tight", "exact_f32", "inexact_f32")
+DYNAMIC_LABELS = ("edge", "tight", "very_tight", "exact_f32", "inexact_f32",
+                  "remap_auto_scale_changed")
 
 
 def prioritized(cases, tier):
@@ -863,9 +940,12 @@ def run(ctx):
     ctx.labels["edge"] += 1
     for sc, sig, detail in oracle(ctx, case):
       ctx.fail(sc, sig, case, detail)
+  # the lattice may use 60% of the budget; the rest belongs to the random
+  # stream whatever the number of workers is
+  reserve = 0.4 * ctx.budget_s
   for case in ctx.shard(rest):
-    if ctx.time_left() <= 0:
-      ctx.labels["inconclusive_time"] += 1
+    if ctx.time_left() <= reserve:
+      ctx.labels["lattice_cut_by_time"] += 1
       break
     ctx.labels["edge"] += 1
     for sc, sig, detail in oracle(ctx, case):
